@@ -166,6 +166,10 @@ def check_solution(K, f, V, fixed, cond, circprops, reported=None, tol=1e-6, K_s
     out = []
     n = len(V)
     r = K @ V - f
+    if not np.all(np.isfinite(V)) or not np.all(np.isfinite(r)):
+        bad = int(np.argmax(~np.isfinite(V))) if not np.all(np.isfinite(V)) else int(np.argmax(~np.isfinite(r)))
+        return [("non-finite", "the written solution (or the system it is checked against) is not finite at node %d: value %s" % (bad, V[bad]), dict(node=bad))], \
+            dict(global_residual=float("nan"), worst_row=None, trivial=False, charges={})
     absrow = abs(K) @ np.abs(V) + np.abs(f)
     floating = {i: c for i, c in cond.items() if circprops[c].get("type", 1) == 0}
     free = [i for i in range(n) if i not in fixed and i not in floating]
@@ -473,7 +477,7 @@ def harmonic_mu(mat, w):
     return out[0], out[1]
 
 
-def harmonic_system(mesh, records):
+def harmonic_system(mesh, records, prox=None):
     """time-harmonic planar magnetics, linear unlaminated materials: (K + j w sigma M) A = J_block + J_applied with the
     per-label applied current density taken from the records written with the solution (case 0: -sigma*dV, case 1: J)"""
     prob = mesh.prob
@@ -487,13 +491,17 @@ def harmonic_system(mesh, records):
         lab = prob.labels[l]
         mat = prob.blockprops[lab["block"]]
         mu1, mu2 = harmonic_mu(mat, w)
+        if mat.get("LamType", 0) > 2 and prox is not None and l in prox:
+            # stranded region: the proximity-effect permeability is a curve fit of the code (GetFillFactor), taken as given
+            mu1 = mu2 = prox[l]
         sig = label_sigma(prob, l)
         if mat.get("LamType", 0) == 0 and mat.get("d_lam", 0.0) > 0:
             sig = 0.0          # in-plane laminations: eddy currents live in the complex permeability
         if mat.get("LamType", 0) > 2:
             sig = 0.0          # stranded conductors carry no bulk eddy currents
         p, q, a = mesh.grads(k)
-        Ke = (np.outer(p, p) / (MU0 * mu2) + np.outer(q, q) / (MU0 * mu1)) / (4 * a) + 1j * w * sig * a * mass
+        with np.errstate(all="ignore"):
+            Ke = (np.outer(p, p) / (MU0 * mu2) + np.outer(q, q) / (MU0 * mu1)) / (4 * a) + 1j * w * sig * a * mass
         idx = mesh.els[k]
         case, val = records[l]
         Jadd = (-sig * val) if case == 0 else val * 1e6
